@@ -172,12 +172,9 @@ func (z *ZodDiscriminatedUnion[T, R]) MustParse(input any, ctx ...*core.ParseCon
 
 // StrictParse validates input with compile-time type safety.
 func (z *ZodDiscriminatedUnion[T, R]) StrictParse(input T, ctx ...*core.ParseContext) (R, error) {
-	cv, ok := convertToDiscriminatedUnionConstraintValue[T, R](input)
-	if !ok {
-		var zero R
-		return zero, issues.CreateTypeConversionError(fmt.Sprintf("%T", input), "discriminated union constraint type", any(input), resolveCtx(ctx))
-	}
-	return z.Parse(cv, ctx...)
+	// StrictParse must answer exactly what Parse answers: the statically typed input is a valid
+	// Parse input, so run the one pipeline.
+	return z.Parse(input, ctx...)
 }
 
 // MustStrictParse panics on validation failure with compile-time type safety.
